@@ -84,23 +84,34 @@ class Segment(object):
         self.st = None
         self.readers = set()   # cursors a byte was read through
 
+    # A stream is what a function reads or writes sequentially through: a cursor (name), or a cursor indexed by a counter
+    # ((name, counter)): its position is cursor + counter, and it advances when either does.
+    def root_of(self, stream):
+        if isinstance(stream, tuple):
+            return ('ix', self.start_root.get(stream[0]), stream[1])
+        return self.start_root.get(stream)
+
     def adv(self, cursor):
-        """How far the cursor moved in this segment (None when it was re-pointed)."""
+        """How far the stream moved in this segment (None when it was re-pointed)."""
+        if isinstance(cursor, tuple):
+            a = self.adv(cursor[0])
+            dv = self.vals.get(cursor[1])
+            return a + dv[1] if (a is not None and dv is not None and dv[0] == 'd') else None
         p = self.pos.get(cursor)
         if p is None or p[0] != self.start_root.get(cursor) or p[1] is None:
             return None
         return p[1]
 
     def bytes_at(self, cursor, axis=0):
-        r = self.start_root.get(cursor)
+        r = self.root_of(cursor)
         return self.B.get((r, axis), ALL)
 
     def constrained(self, cursor):
-        r = self.start_root.get(cursor)
+        r = self.root_of(cursor)
         return {a: v for (rr, a), v in self.B.items() if rr == r and v != ALL}
 
     def writes_through(self, cursor):
-        r = self.start_root.get(cursor)
+        r = self.root_of(cursor)
         return [(a, v) for (rr, a, v, _c) in self.writes if rr == r]
 
     def __repr__(self):
@@ -203,6 +214,13 @@ class Explorer(object):
             return self.pcursors[strip_casts(e['e'])['d']]
         return None
 
+    @staticmethod
+    def stream_of(cursor, p):
+        """the stream a position read/written through `cursor` belongs to: the cursor itself, or (cursor, counter)"""
+        if p is not None and isinstance(p[0], tuple) and p[0] and p[0][0] == 'ix':
+            return (cursor, p[0][2])
+        return cursor
+
     def pos_of(self, x, st):
         """(root, axis) designated by the memory lvalue x, or None."""
         acc = access(x)
@@ -215,6 +233,8 @@ class Explorer(object):
         if p is None or p[1] is None:
             return None
         idx = acc[1]
+        if not isinstance(idx, int) and idx.get('k') == 'un' and idx.get('op') in ('post++', 'post--', 'pre++', 'pre--'):
+            idx = strip_casts(idx['e'])      # p[i++]: the step is deferred (post) or already applied (pre): the counter's value now
         if not isinstance(idx, int):
             iv = self.ev(idx, st, {})
             if iv is None:
@@ -1038,7 +1058,7 @@ class Explorer(object):
                 loadpos[ev.node['id']] = p
             acc = access(ev.node)
             if acc is not None and self.cursor_of(acc[0]) is not None:
-                st.readers = st.readers | {self.cursor_of(acc[0])}
+                st.readers = st.readers | {self.stream_of(self.cursor_of(acc[0]), p)}
             return [st]
         if ev.kind == 'incdec':
             c = self.cursor_of(ev.lhs)
@@ -1058,7 +1078,7 @@ class Explorer(object):
                 p = self.pos_of(t, st)
                 if p is not None:
                     st.over[p] = None
-                    st.writes.append((p[0], p[1], None, self.cursor_of(access(t)[0])))
+                    st.writes.append((p[0], p[1], None, self.stream_of(self.cursor_of(access(t)[0]), p)))
             return [st]
         if ev.kind in ('store', 'declinit'):
             if ev.kind == 'declinit':
@@ -1132,7 +1152,7 @@ class Explorer(object):
                 return [st]
             if access(target) is not None and self.cursor_of(access(target)[0]) is not None:
                 p = self.pos_of(target, st)
-                wc = self.cursor_of(access(target)[0])
+                wc = self.stream_of(self.cursor_of(access(target)[0]), p)
                 if p is None:
                     c = wc
                     st.writes.append((('?', c), None, None, c))
